@@ -19,7 +19,10 @@ DEADLINE = {"quick": 200, "thorough": 1400}
 
 
 def build(ctx):
-    return {"h08": ctx.build("h08", ["h08.cpp"], opt="-O1", libs=["-ldl"])}
+    vs = ctx.vsched_obj()
+    exes = ctx.build_many([dict(name="h08", sources=["h08.cpp"], opt="-O1", libs=["-ldl"]),
+                           dict(name="h08s", sources=["h08s.cpp"], opt="-O1", objects=[vs])])
+    return {"h08": exes[0], "h08s": exes[1]}
 
 
 def run(ctx):
@@ -27,6 +30,13 @@ def run(ctx):
     if getattr(ctx, "build_only", False):
         return
     ctx.run_harness(exes["h08"], [], shards=16)
+    # schedule exploration with a failing mock compressor / encoder; its schedule counts are kept apart from the
+    # fault-plan counts (evaluations / distinct_nontrivial speak about fault plans)
+    before = {k: ctx.cov.get(k, 0) for k in ("evaluations", "distinct_nontrivial")}
+    ctx.run_harness(exes["h08s"], [])
+    ctx.cov["schedules_explored"] = ctx.cov.get("evaluations", 0) - before["evaluations"]
+    ctx.cov["schedules_deviating_from_default"] = ctx.cov.get("distinct_nontrivial", 0) - before["distinct_nontrivial"]
+    ctx.cov.update(before)
     if ctx.cov.get("rlimit_plans_not_fired", 0):
         ctx.notes.append("%d RLIMIT_FSIZE plans below the output size did not make any libc call fail" % ctx.cov["rlimit_plans_not_fired"])
     ctx.assume("output of the fault-free run is deterministic in size and in the number of libc calls (measured per configuration by a "
